@@ -148,3 +148,66 @@ vharness! {
         assert!(false, "VERIF_MARKER: a thread was created beyond max_threads");
     }
 }
+
+vharness! {
+    /// @prop C18 @tier quick @mode full @funcs Thread::set_yield @bounds all 5 prior thread states, all clock values, yield counts 0..1000
+    /// yield_now bookkeeping: the thread is marked yielded, the version of the yield is recorded (stores first seen at or before it are not offered again) and the yield counter grows -- on every call, also when the thread is still marked yielded from its previous yield.
+    fn thread_set_yield_records() {
+        let mut set = mk_set(2);
+        let code: u8 = kani::any();
+        kani::assume(code <= 4);
+        let c: [u16; MAX_THREADS] = kani::any();
+        let n: usize = kani::any();
+        kani::assume(n <= 1000);
+        let prev: u16 = kani::any();
+        set.threads[1].state = state_from_code(code);
+        set.threads[1].causality = vv(c);
+        set.threads[1].yield_count = n;
+        set.threads[1].last_yield = if kani::any() { Some(prev) } else { None };
+        set.threads[1].set_yield();
+        assert!(state_code(&set.threads[1].state) == 3);
+        assert!(set.threads[1].last_yield == Some(c[1]));
+        assert!(set.threads[1].yield_count == n + 1);
+        kani::cover!(code == 3 && prev != c[1], "yield while still marked yielded, at a later version");
+        std::mem::forget(set);
+    }
+}
+
+vharness! {
+    /// @prop C16 @tier quick @mode fast @funcs Set::clear,Thread::new @bounds 3 threads with symbolic clocks/states/yield records, symbolic SC-fence view
+    /// thread::Set::clear (run between iterations) leaves exactly the initial state: one runnable main thread without token, all clocks zero, no yield record, no pending operation, the global SC-fence view zero, the new execution id.
+    #[cfg_attr(kani, kani::unwind(8))]
+    fn thread_set_clear_resets() {
+        let mut set = mk_set(3);
+        havoc_clocks(&mut set, 3);
+        let sc: [u16; MAX_THREADS] = kani::any();
+        set.seq_cst_causality = vv(sc);
+        let mut i = 0;
+        while i < 3 {
+            let code: u8 = kani::any();
+            kani::assume(code <= 4);
+            set.threads[i].state = state_from_code(code);
+            set.threads[i].yield_count = kani::any();
+            set.threads[i].last_yield = Some(kani::any());
+            set.threads[i].critical = kani::any();
+            i += 1;
+        }
+        let a: usize = kani::any();
+        kani::assume(a < 3);
+        set.active = if kani::any() { Some(a) } else { None };
+        let new_id = crate::rt::execution::verif::id(EXEC_ID + 1);
+        set.clear(new_id);
+        assert!(set.threads.len() == 1);
+        assert!(set.active == Some(0));
+        assert!(set.execution_id == new_id);
+        let zero = [0u16; MAX_THREADS];
+        assert!(vv_raw(&set.seq_cst_causality) == zero);
+        let t = &set.threads[0];
+        assert!(state_code(&t.state) == 0);
+        assert!(vv_raw(&t.causality) == zero && vv_raw(&t.released) == zero && vv_raw(&t.dpor_vv) == zero);
+        assert!(t.last_yield.is_none() && t.yield_count == 0 && !t.critical && t.operation.is_none());
+        assert!(t.id == Id::new(new_id, 0));
+        kani::cover!(sc != zero, "SC-fence view was advanced");
+        std::mem::forget(set);
+    }
+}
